@@ -1,7 +1,7 @@
 (* C18 - cluster job scripts reproduce commands, paths and environment values
    exactly.  Only statements, [exact], and [Print Assumptions]. *)
 From Coq Require Import String.
-From Martian Require Import Lib.Bytes Lib.Utf8 K.ShellQuote K.Sh Proofs.ShellQuote.
+From Martian Require Import Lib.Bytes Lib.Utf8 K.ShellQuote K.Sh K.JobScript Proofs.ShellQuote Proofs.JobScript.
 From Coq Require Import Permutation.
 
 (* A POSIX shell evaluating the double-quoted word produced for [s] yields
@@ -22,6 +22,29 @@ Theorem C18_format_args_roundtrip : forall envs cmd argv,
     sh_simple_command (format_args envs cmd argv) = Lit (envs', cmd :: argv).
 Proof. exact format_args_roundtrip_lemma. Qed.
 Print Assumptions C18_format_args_roundtrip.
+
+(* Filling the job template: which positions of the template are replaced is a
+   function of the template and the placeholder names only; text that was
+   substituted (a quoted path, the command line, an environment value) is
+   never scanned for placeholders again, whatever it contains. *)
+Theorem C18_template_single_pass : forall keys vals s,
+  length keys = length vals ->
+  replace_all (combine keys vals) s = render vals (scan (S (length s)) keys s).
+Proof. exact replace_factors. Qed.
+Print Assumptions C18_template_single_pass.
+
+Theorem C18_template_same_positions : forall keys vals vals' s,
+  length keys = length vals -> length keys = length vals' ->
+  exists ts, replace_all (combine keys vals) s = render vals ts /\
+             replace_all (combine keys vals') s = render vals' ts.
+Proof. exact same_positions. Qed.
+Print Assumptions C18_template_same_positions.
+
+Example C18_template_nonvacuous :
+  (* a value that contains a later placeholder is copied, not expanded *)
+  replace_all [(bs "__A__", bs "x__B__y"); (bs "__B__", bs "2")] (bs "a=__A__ b=__B__")
+  = bs "a=x__B__y b=2".
+Proof. vm_compute. reflexivity. Qed.
 
 (* Non-vacuity: a value made of every shell-active character plus non-ASCII
    text meets the hypotheses, and the model evaluates it back. *)
